@@ -11,3 +11,4 @@ def run(ctx, rep):
     more.rule_super_bnd_arg(mod, rep)
     more.rule_lsub_request(mod, rep)
     more.rule_preset_joined(mod, rep)
+    more.rule_super_bnd_test(mod, rep)
